@@ -510,7 +510,8 @@ void prop_cg(Tape &t, Ctx &ctx) {
         for (int i = 0; i < c.n; ++i) e[i] = xs[i] - S(o.x[i]);
         long double ea = ref::anorm(c.Ad, e);
         long double emin = ref::cg_min_aerr<S>(c.Ad, c.Mp(), c.bd, c.x0d, xs, k);
-        long double slack = 64 * U * c.kappaA * c.kappaM * (k + 1) * (xsA + x0A);
+        // same constants as the iterate tolerance (x8 for complex arithmetic): |x* - x_k|_A <= min + |x_k - x_k^ref|_A
+        long double slack = (VT<V>::complex ? 8 : 1) * 64 * U * c.kappaA * c.kappaM * (k + 1) * (xsA + x0A);
         calib.see("cg-opt:(ea-emin)/(u kA kM (k+1)(|x*|_A+|x0|_A))", static_cast<double>((ea - emin) / (U * c.kappaA * c.kappaM * (k + 1) * (xsA + x0A))));
         VF_REQUIRE(ea <= (1 + 1e-8) * emin + slack, "cg: A-norm error of iterate " << k << " is " << static_cast<double>(ea) << ", minimum over the preconditioned Krylov space is "
                    << static_cast<double>(emin) << " (slack " << static_cast<double>(slack) << ")");
@@ -726,7 +727,8 @@ void prop_fterm(Tape &t, Ctx &ctx) {
     const int slack = method == 2 ? L : method == 0 ? 2 + n / 8 : 2;
     const int maxit = sensitive ? bound + slack : bound;
     typedef typename VT<V>::S X;
-    auto prep = [&](auto &sp, int mi) { sp.maxiter = mi; sp.tol = 1e-10; sp.abstol = 0; };
+    double soltol = 1e-10; // relative tolerance handed to the solver
+    auto prep = [&](auto &sp, int mi) { sp.maxiter = mi; sp.tol = soltol; sp.abstol = 0; };
     auto run_d = [&](int mi) -> Out<V> {
         switch (method) {
         case 0: { typedef amgcl::solver::cg<B> Sv; typename Sv::params sp; prep(sp, mi); return run_amgcl<Sv>(c, sp, true); }
@@ -758,6 +760,20 @@ void prop_fterm(Tape &t, Ctx &ctx) {
         fprintf(stderr, "NEED %s ext=%d dbl=%d n=%d L=%d s=%d kappa=%.1f %s %s\n", mn[method], need, needd, n, L, s, c.kappaA, c.fam.c_str(), Case<V>::pname(c.pkind));
         return;
     }
+    // Attainable accuracy: no double-precision run can push the true residual below ~ u kappa |r0| (rounding of the first correction)
+    const long double floor_d = 64 * U * c.kappaA * c.kappaM * std::max<long double>(1, r0);
+    // Known finding F-recursion-gap (C01), seen through the finite-termination clause.  BiCGStab(L) and IDR(s) stop on a recursively
+    // carried residual and keep iterating once the Krylov space is exhausted; when the tolerance handed to the solver (1e-10 here)
+    // lies below the level u kappa |r0| at which the carried residual can still follow the true one, the solver does not stop when it
+    // has the solution but iterates on rounding noise, the carried residual goes to 1e-13..1e-25 while x drifts away (true residual
+    // 1e-8 .. 25).  Class of inputs: solver in {bicgstabl, idrs} and 64 u kappa2(A) kappa2(M) max(1, |f - A x0|/|f|) > 1e-10.
+    // Inside the class the clause is asserted for an ATTAINABLE tolerance instead: handed tol = max(1e-10, 4 x that level) the solver
+    // must return, within the same iteration budget, an x whose true residual is <= max(1e-8, 4 tol), i.e. the method does
+    // terminate finitely with the solution; only asking for more makes it lose the solution again.  (Running with maxiter = 1, 2, ..
+    // is not a usable weaker statement: BiCGStab(L) always completes a sweep of L steps, and with the space exhausted after the
+    // first of them the rest of the sweep already destroys x: thorough-tier case known/C05-recursion-gap-bicgstabl.case.)
+    const bool gap_class = (method == 2 || method == 6) && floor_d > 1e-10L;
+    const bool gap_class_x = (method == 2 || method == 6) && 64 * 5.5e-20L * c.kappaA * c.kappaM * std::max<long double>(1, r0) > 1e-10L;
     Out<V> o = run_d(maxit);
     long double rr = true_relres(c.A, c.b, o.x);
     ctx.nontrivial = n >= 2 && o.iters >= 2 && r0 > 1e-6;
@@ -765,6 +781,36 @@ void prop_fterm(Tape &t, Ctx &ctx) {
     ctx.label(o.iters >= 2 ? "iters>=2" : "iters<2");
     ctx.label(static_cast<int>(o.iters) >= n ? "used-all-n" : "early");
     if (calib.on) calib.see(std::string("fterm-") + mn[method] + ":relres", static_cast<double>(rr));
+    if (gap_class) {
+        ctx.label(std::string("recursion-gap-class:") + mn[method]);
+        soltol = static_cast<double>(std::max(1e-10L, 4 * floor_d));
+        Out<V> oa = run_d(maxit);
+        soltol = 1e-10;
+        long double ra = true_relres(c.A, c.b, oa.x), thr = std::max(1e-8L, 4 * std::max(1e-10L, 4 * floor_d));
+        VF_REQUIRE(!oa.threw.empty() || static_cast<int>(oa.iters) <= maxit + (method == 2 ? L - 1 : 0), mn[method] << ": " << oa.iters << " iterations reported with maxiter=" << maxit);
+        VF_REQUIRE(ra <= thr, mn[method] << par.str() << ": asked for the attainable tolerance " << std::max(1e-10, 4 * static_cast<double>(floor_d)) << " the solver returns a true relative residual "
+                   << static_cast<double>(ra) << " > " << static_cast<double>(thr) << " after " << oa.iters << " iterations (allowed " << maxit << ", bound " << bound << " for n=" << n << ", initial " << static_cast<double>(r0) << ")");
+    }
+    // the library's recurrences in extended precision (sensitive methods): the same bound; the three short-recurrence methods keep
+    // their slack because a near-breakdown of a bi-orthogonal recurrence delays termination by a step or two in ANY precision
+    // (thorough-tier case replay/C05/bicgstab-real-n13-one-late-in-both-precisions.case: +1 in double and in long double)
+    if (sensitive && !gap_class_x) {
+        const int xbound = bound + (shortrec ? slack : (VT<V>::complex ? 2 : 0));
+        Out<X> ox = run_x(xbound);
+        long double rx = true_relres(c.A, bx, ox.x);
+        if (calib.on) calib.see(std::string("fterm-ext-") + mn[method] + ":relres", static_cast<double>(rx));
+        if (!ox.threw.empty()) {
+            ctx.label(std::string("breakdown-after-convergence(long double):") + mn[method]);
+            VF_REQUIRE(rx <= 1e-8L, mn[method] << par.str() << " (library templates in long double): the solver threw \"" << ox.threw << "\" with true relative residual " << static_cast<double>(rx));
+        } else {
+            VF_REQUIRE(static_cast<int>(ox.iters) <= xbound + (method == 2 ? L - 1 : 0), mn[method] << " (long double): " << ox.iters << " iterations reported with maxiter=" << xbound);
+            VF_REQUIRE(rx <= 1e-8L, mn[method] << par.str() << " (library templates in long double): true relative residual " << static_cast<double>(rx) << " after " << ox.iters
+                       << " iterations (allowed " << xbound << ", bound " << bound << " for n=" << n << "), initial " << static_cast<double>(r0) << ", reported " << ox.resid);
+        }
+    }
+    if (sensitive && static_cast<int>(o.iters) > bound) ctx.label(std::string("double-needs-more-than-bound:") + mn[method]);
+    // the clause itself in double precision: the solver returns the solution within the allowed number of iterations
+    if (gap_class && ctx.known("F-recursion-gap-c05")) return;
     // A breakdown exception ("zero rho / omega / sigma / M[k,k]") is admissible exactly when the iterate at the moment of the
     // breakdown already is the solution (the method has nothing left to do: e.g. IDR(s) with the exact preconditioner reaches
     // r = 0 in one step while its smoothed residual is still above the requested 1e-10); otherwise it is a failure to terminate.
@@ -777,21 +823,6 @@ void prop_fterm(Tape &t, Ctx &ctx) {
         VF_REQUIRE(rr <= 1e-8L, mn[method] << par.str() << ": true relative residual " << static_cast<double>(rr) << " after " << o.iters << " iterations (allowed " << maxit
                    << ", bound " << bound << " for n=" << n << "), initial " << static_cast<double>(r0) << ", reported " << o.resid);
     }
-    if (!sensitive) return;
-    if (static_cast<int>(o.iters) > bound) ctx.label(std::string("double-needs-more-than-bound:") + mn[method]);
-    // the library's recurrences in extended precision: the bound itself
-    const int xbound = bound + (VT<V>::complex ? (method == 2 ? L : 2) : 0);
-    Out<X> ox = run_x(xbound);
-    long double rx = true_relres(c.A, bx, ox.x);
-    if (calib.on) calib.see(std::string("fterm-ext-") + mn[method] + ":relres", static_cast<double>(rx));
-    if (!ox.threw.empty()) {
-        ctx.label(std::string("breakdown-after-convergence(long double):") + mn[method]);
-        VF_REQUIRE(rx <= 1e-8L, mn[method] << par.str() << " (library templates in long double): the solver threw \"" << ox.threw << "\" with true relative residual " << static_cast<double>(rx));
-        return;
-    }
-    VF_REQUIRE(static_cast<int>(ox.iters) <= xbound + (method == 2 ? L - 1 : 0), mn[method] << " (long double): " << ox.iters << " iterations reported with maxiter=" << xbound);
-    VF_REQUIRE(rx <= 1e-8L, mn[method] << par.str() << " (library templates in long double): true relative residual " << static_cast<double>(rx) << " after " << ox.iters
-               << " iterations (allowed " << xbound << ", bound " << bound << " for n=" << n << "), initial " << static_cast<double>(r0) << ", reported " << ox.resid);
 }
 
 // The iterate props and the finite-termination prop live in separate translation units (compile time).
